@@ -291,9 +291,11 @@ func (in *inst) post(c *astutil.Cursor) bool {
 		in.stmtAccess(c, n)
 
 	case *ast.AssignStmt:
+		in.sqlYield(c, n)
 		in.assign(c, n)
 
 	case *ast.IncDecStmt, *ast.ExprStmt, *ast.ReturnStmt, *ast.IfStmt, *ast.SwitchStmt, *ast.TypeSwitchStmt, *ast.DeferStmt, *ast.DeclStmt:
+		in.sqlYield(c, n.(ast.Stmt))
 		in.stmtAccess(c, n.(ast.Stmt))
 	}
 	return true
@@ -589,6 +591,57 @@ func (in *inst) rewriteMapRange(r *ast.RangeStmt) {
 	r.Tok = token.DEFINE
 	r.X = in.call("SortedKeys", m)
 	r.Body.List = append(pre, r.Body.List...)
+}
+
+// ---- R12: a scheduling point (= kill point, = preemption point) before every SQL statement ----
+
+func (in *inst) sqlYield(c *astutil.Cursor, s ast.Stmt) {
+	if !in.canInsert(c) {
+		return
+	}
+	if _, isDefer := s.(*ast.DeferStmt); isDefer {
+		return
+	}
+	found := false
+	for _, h := range headerExprs(s) {
+		if h == nil || isNilNode(h) {
+			continue
+		}
+		ast.Inspect(h, func(n ast.Node) bool {
+			if found {
+				return false
+			}
+			switch x := n.(type) {
+			case *ast.FuncLit:
+				return false
+			case *ast.CallExpr:
+				sel, ok := x.Fun.(*ast.SelectorExpr)
+				if !ok {
+					return true
+				}
+				sl, ok := in.info.Selections[sel]
+				if !ok || sl.Kind() != types.MethodVal {
+					return true
+				}
+				if recv, ok := namedOf(sl.Recv()); ok {
+					switch recv {
+					case "database/sql.DB", "database/sql.Stmt", "database/sql.Tx", "database/sql.Conn":
+						switch sel.Sel.Name {
+						case "Exec", "ExecContext", "Query", "QueryContext", "QueryRow", "QueryRowContext", "Prepare", "PrepareContext", "Begin", "BeginTx", "Commit", "Rollback":
+							found = true
+							return false
+						}
+					}
+				}
+			}
+			return true
+		})
+	}
+	if found {
+		st.accesses++
+		site := &ast.BasicLit{Kind: token.STRING, Value: strconv.Quote(in.site(s) + "#sql")}
+		c.InsertBefore(&ast.ExprStmt{X: in.call("Yield", site)})
+	}
 }
 
 // ---- R10 / R11 --------------------------------------------------------------------------
